@@ -15,7 +15,7 @@ import (
 func init() {
 	register(&Property{
 		ID:          "C11",
-		Explanation: "R1 (never outside the pool): for each implementation of stickycookie.CookieValue, every non-nil *url.URL returned by FindURL is an element of its urls argument (the value of a range over it) or the result of a nested FindURL on the same slice — never the URL parsed from the cookie. R2 (codec agreement): two-way codecs decode and compare exactly {Scheme,Host,Path} (shared with C02.R4); for the one-way hash codec the value fed to the hash when minting (Get) and when looking up (FindURL) is the same function applied to the URL. R3 (degrade, never reject): in both balancers' ServeHTTP no return and no error response lies between the cookie lookup and the normal selection; the request is pinned only on the 'present' edge (with a copy of the member's URL); the selection routine is not called on the pinned path; on the unpinned path with sticky sessions configured StickBackend is called with the URL the selection returned, before the request is handed downstream. R4: GetBackend maps http.ErrNoCookie to (nil,false,nil) and reports present = (url != nil); the AES codec returns an error and no URL on the authentication-failure and expiry edges and slices the decoded bytes only on an edge proving the decoded length exceeds the nonce size; the fallback codec consults 'to' with the same arguments whenever 'from' found nothing.",
+		Explanation: "R1 (never outside the pool): for each implementation of stickycookie.CookieValue, every non-nil *url.URL returned by FindURL is an element of its urls argument (the value of a range over it) or the result of a nested FindURL on the same slice — never the URL parsed from the cookie. R2 (codec agreement): two-way codecs decode and compare exactly {Scheme,Host,Path} (shared with C02.R4); for the one-way hash codec the value fed to the hash when minting (Get) and when looking up (FindURL) is the same function applied to the URL. R3 (degrade, never reject): in both balancers' ServeHTTP no return and no error response lies between the cookie lookup and the normal selection; the request is pinned only on the 'present' edge (with a copy of the member's URL); the selection routine is not called on the pinned path; on the unpinned path with sticky sessions configured StickBackend is called with the URL the selection returned, before the request is handed downstream. R4: GetBackend maps http.ErrNoCookie to (nil,false,nil) and reports present = (url != nil); the AES codec returns an error and no URL on the authentication-failure and expiry edges and slices the decoded bytes only on an edge proving the decoded length exceeds the nonce size; the fallback codec consults 'to' with the same arguments whenever 'from' found nothing. R3 also: the candidate list handed to the cookie lookup and the normal selection come from the same pool (same receiver field, or the same wrapped object); selection-after-pin is decided by the relational flag fixpoint.",
 		NotDecided: []string{
 			"cryptographic unforgeability (AES-GCM, trusted); exact round trip of url.Parse(u.String()) for exotic URLs",
 			"remark (no rule): with a TTL the AES codec frames url|expiry and splits at '|', so a server URL containing a literal '|' loses stickiness (degrades, never mis-routes)",
